@@ -4,7 +4,20 @@ import collections
 from hypothesis import strategies as st
 from metapype.eml import evaluate, validate
 from metapype.eml import rule as R
-from metapype.eml.evaluation_warnings import EvaluationWarning as W
+from metapype.eml.evaluation_warnings import EvaluationWarning as WE
+
+
+class _Names:
+    """warning codes are identified by their documented NAMES in the model (W.TITLE_TOO_SHORT == "TITLE_TOO_SHORT"): an
+    enumeration in which two codes share a value makes one an alias of the other, which identity comparison cannot see"""
+
+    def __getattr__(self, k):
+        if k.startswith("_"):
+            raise AttributeError(k)
+        return k
+
+
+W = _Names()
 from metapype.eml.exceptions import MetapypeRuleError
 from metapype.model.node import Node
 
@@ -184,10 +197,14 @@ def check(sp, judge=True):
         fr = [f for f in traceback.extract_tb(e.__traceback__) if "/metapype/" in f.filename]
         where = fr[-1].name if fr else "?"
         raise Violation(f"evaluate-tree-raises:{type(e).__name__}@{where}", f"{type(e).__name__}: {e}", case)
+    if len(WE.__members__) != len(list(WE)):
+        alias = sorted(k for k, v in WE.__members__.items() if v.name != k)
+        raise Violation("warning-codes-not-distinct", f"codes {alias} are aliases of other codes: two recommendations are "
+                        f"reported under one code", case)
     if not ws or ws[0] != "sentinel":
         raise Violation("prefix-disturbed", "an earlier entry of the warnings list was removed or moved", case)
     for w in ws[1:]:
-        if not (isinstance(w, tuple) and len(w) == 3 and isinstance(w[0], W) and isinstance(w[1], str)
+        if not (isinstance(w, tuple) and len(w) == 3 and isinstance(w[0], WE) and isinstance(w[1], str)
                 and isinstance(w[2], Node) and id(w[2]) in ids):
             raise Violation("bad-warning-entry", f"{w!r}"[:200], case)
     per_node = []
@@ -205,22 +222,22 @@ def check(sp, judge=True):
     if not judge:
         return 0, False
     exp, boundary, either = expected(root)
-    got = collections.Counter((w[0], id(w[2])) for w in ws[1:])
+    got = collections.Counter((w[0].name, id(w[2])) for w in ws[1:])
     names = {id(n): n.name for n in allnodes}
     for k, c in got.items():
         v = exp.get(k)
         if c > 1:
-            raise Violation("duplicate-warning:" + k[0].name, f"{k[0].name} reported {c} times for one {names[k[1]]}", case)
+            raise Violation("duplicate-warning:" + k[0], f"{k[0]} reported {c} times for one {names[k[1]]}", case)
         if v is None:
-            raise Violation("undocumented-warning:" + k[0].name, f"{k[0].name} on {names[k[1]]}: not implied by the documented recommendations", case)
+            raise Violation("undocumented-warning:" + k[0], f"{k[0]} on {names[k[1]]}: not implied by the documented recommendations", case)
         if v == NOT:
-            raise Violation("spurious-warning:" + k[0].name, f"{k[0].name} reported on {names[k[1]]} although the recommendation is met", case)
+            raise Violation("spurious-warning:" + k[0], f"{k[0]} reported on {names[k[1]]} although the recommendation is met", case)
     for a, b, n in either:
         if (a, id(n)) not in got and (b, id(n)) not in got:
-            raise Violation("missing-warning:" + a.name + "-or-" + b.name, f"neither {a.name} nor {b.name} reported on {n.name}", case)
+            raise Violation("missing-warning:" + a + "-or-" + b, f"neither {a} nor {b} reported on {n.name}", case)
     for k, v in exp.items():
         if v == MUST and k not in got:
-            raise Violation("missing-warning:" + k[0].name, f"{k[0].name} not reported on {names[k[1]]}", case)
+            raise Violation("missing-warning:" + k[0], f"{k[0]} not reported on {names[k[1]]}", case)
     return len({k[0] for k, v in exp.items() if v == MUST}), boundary
 
 
